@@ -530,10 +530,12 @@ func init() {
 			"placeholders are separated from neighbouring tokens by an operator, comma, parenthesis or white space; comments contain no backslash or carriage return",
 			"the reference literal renderer (sq.StrLit) is MySQL-correct; it is itself checked by the echo mode and by C17",
 		},
-		Gen:      genC16,
-		New:      func() any { return &C16Case{} },
-		Check:    func(c any) Result { return checkC16(c.(*C16Case)) },
-		Quick:    6000,
-		Thorough: 40000,
+		Gen:         genC16,
+		New:         func() any { return &C16Case{} },
+		Check:       func(c any) Result { return checkC16(c.(*C16Case)) },
+		FuzzTargets: []string{"FuzzSanitize"},
+		FuzzSeconds: 120,
+		Quick:       6000,
+		Thorough:    40000,
 	})
 }
